@@ -91,7 +91,10 @@ def gen_case(rng: SimRng, tier: str) -> dict:  # noqa: ARG001
             vals = [r.choice([0.5, 1.0, 2.0, 0.1]) for _ in range(r.randint(1, 4))]
             if r.random() < 0.7:
                 vals.insert(r.randrange(len(vals) + 1), 0.0)  # k = 0: dx/dt = c, no steady state
-            ops.append({"op": "scan_ss", "param": "k", "values": vals, "rel_norm": r.random() < 0.3})
+            op = {"op": "scan_ss", "param": "k", "values": vals, "rel_norm": r.random() < 0.3}
+            if len(set(vals)) == len(vals) and len(vals) >= 2 and r.random() < 0.4:
+                op["cache_prefill"] = sorted(r.sample(range(len(vals)), r.randint(1, len(vals) - 1)))
+            ops.append(op)
         else:
             ops.append({"op": "sim_ss", "y0": None, "tolerance": 1e-6, "rel_norm": False, "fault": None})
     return {"spec": spec, "ops": ops}
@@ -293,8 +296,27 @@ class Exec:
         model = models.build_model(spec)
         to_scan = pd.DataFrame({op["param"]: [float(v) for v in op["values"]]})
         exc = None
+        ck = {}
+        cache_dir = None
+        if op.get("cache_prefill") is not None:
+            import os
+            import shutil
+            from pathlib import Path
+
+            from mxlpy.parallel import Cache
+
+            cache_dir = Path(os.environ.get("SIMKIT_SCRATCH") or "/tmp") / "sscache" / f"{os.getpid()}-{self.i}"  # noqa: S108
+            shutil.rmtree(cache_dir, ignore_errors=True)
+            ck = {"cache": Cache(tmp_dir=cache_dir)}
+            pre = [j for j in op["cache_prefill"] if j < len(to_scan)]
+            self.counters["scan_with_partly_filled_cache"] += 1
+            try:
+                if pre:
+                    scan.steady_state(models.build_model(spec), to_scan=to_scan.iloc[pre], parallel=False, rel_norm=op["rel_norm"], integrator=Scipy, **ck)
+            except Exception:  # noqa: BLE001
+                ck = {}
         try:
-            res = scan.steady_state(model, to_scan=to_scan, parallel=False, rel_norm=op["rel_norm"], integrator=Scipy)
+            res = scan.steady_state(model, to_scan=to_scan, parallel=False, rel_norm=op["rel_norm"], integrator=Scipy, **ck)
             var = res.variables
         except Exception as e:  # noqa: BLE001
             exc = type(e).__name__
